@@ -407,7 +407,8 @@ fn obtain_lazy(src: &Arc<Source>, j: &J, span: &Span, path: &[Step]) -> Result<H
 
 fn ints_only(j: &J) -> bool {
     match j {
-        J::Num(n) => !n.contains(['.', 'e', 'E']) && n != "-0",
+        // (integers the serde data model carries exactly: beyond 64 bits they would travel as f64)
+        J::Num(n) => !n.contains(['.', 'e', 'E']) && n != "-0" && (oracle::expected_u64(n).is_some() || oracle::expected_i64(n).is_some()),
         J::Arr(a) => a.iter().all(ints_only),
         J::Obj(m) => m.iter().all(|(_, v)| ints_only(v)),
         _ => true,
